@@ -40,6 +40,7 @@
 #include <stdlib.h>
 #include <stdbool.h>
 #include "evfilt.h"
+#include "evical.h"
 #include "range.h"
 #include "nifty.h"
 
@@ -141,6 +142,14 @@ send_evfilt(int whither, echs_const_evstrm_t s)
 	const struct evfilt_s *this = (const struct evfilt_s*)s;
 
 	echs_evstrm_seria(whither, this->e);
+	/* the exceptions are part of it, the one we're looking at ... */
+	if (!echs_nul_range_p(this->ex)) {
+		echs_exdate_icalify(whither, this->ex.beg);
+	}
+	/* ... and the ones we haven't looked at yet */
+	if (LIKELY(this->x != NULL)) {
+		echs_evstrm_seria(whither, this->x);
+	}
 	return;
 }
 
